@@ -317,7 +317,20 @@ def r_colour_switch(r, prog):
     # styled text is only produced after the switch: by the human emitter and what it calls (and by emit_totals, which the binary calls
     # after the diagnostics were emitted). A label styled earlier - in the constructor, in a static - keeps its escape sequences whatever
     # --disable-color says.
-    LATE = (EM + 'emit_diagnostics_in_human', EM + 'emit_snippet', 'slicec::diagnostic_emitter::emit_totals', 'slicec::slice_file::SliceFile::get_snippet', 'slicec::slice_file::get_highlight')
+    # (everything the human emitter calls inside the crate, to any depth - a helper extracted from it is as late as it is)
+    late = set()
+    todo = [EM + 'emit_diagnostics_in_human', 'slicec::diagnostic_emitter::emit_totals']
+    while todo:
+        p_ = todo.pop()
+        g = prog.fns.get(p_)
+        if g is None or p_ in late or g.crate.tag != 'slicec':
+            continue
+        late.add(p_)
+        todo += [c.resolved for c in g.calls() if c.resolved in prog.fns and not g.blocks[c.bb].get('cleanup')]
+        todo += [h.path for h in prog.fns.values() if h.path.startswith(p_ + '::{closure')]
+    if EM + 'new' in late or EM + 'emit_diagnostics' in late:
+        raise AnchorMissing('the human emitter calls the constructor / the dispatcher')
+    LATE = tuple(sorted(late))
     early = []
     n_style = 0
     for g in prog.fns.values():
